@@ -5,22 +5,59 @@ ROOT = os.path.dirname(os.path.abspath(__file__))
 sys.path.insert(0, ROOT)
 from verif_config import PROPS
 
+TRUST = "Trusted: Coq 8.16.1 kernel (no axioms: every theorem prints 'Closed under the global context'), extraction (ExtrOcamlBasic only), hand-written OCaml glue and monitor clauses, Go harness with gated simulation adapters (differential testing bounds the model-code tie), /repo/verif_export.go (tag verif). "
+ENGINE_Q = "Quantification of the history theorems: every configuration, every sequence of operations in any order, every fault plan (error before/after the effect, lease loss, crash at any adapter call), crashes, lease revocations, rewinds, duplicated deliveries; hist_ok excludes stale reads and negative clock steps. "
 TEXT = {
- "C02": ("Coq theorems: for every sequence of builder calls the graph's transitions are exactly the declared edges and validateTransition accepts exactly those (all integers). Correspondence: real Builder/graph/validateTransition vs extracted model on random call lists and permutations.",
-         "Engine-level part (no write on undeclared return, history form) is carried by the engine model as it is built; until then this check decides the graph/validation half. Trusted: Coq kernel, extraction, harness.",
-         "Coq proof (invariant over AddTransition sequences) + differential correspondence"),
- "C03": ("Coq theorems: controller accepts exactly the documented (state, op) pairs, rejected => nothing to store, finished closed under the lifecycle relation, terminal classification = declared destination without outgoing edge for every call list (order-independent). Correspondence: exhaustive table / controller / web UI handler, real Builder.",
-         "History form (paths of lc, finished absorbing under faults) is carried by the engine model as it is built. Trusted: Coq kernel, extraction, harness.",
-         "Coq proof (finite case analysis, graph invariant) + exhaustive correspondence"),
- "C06": ("Coq theorems: routing is a total function of the record for all integer run-state codes; topic strings of one workflow are pairwise distinct for every name (itoa injective); Await release condition. Correspondence: exhaustive grid against MakeOutboxEventData (decoded protobuf) and topic.go.",
-         "End-to-end 'who receives' part is carried by the engine model as it is built. Trusted: Coq kernel, extraction, harness, DecimalString as model of strconv.FormatInt.",
-         "Coq proof + exhaustive grid correspondence"),
- "C10": ("Coq theorems over the shard filter model: for every integer event ID and every shard count exactly one shard handles the event. Correspondence of the real shardFilter against the extracted model.",
-         "Launch enumeration and role names are being added. Trusted: Coq kernel; extraction; harness + verif_export.go; int64 modelled as Z.",
-         "Coq proof (lia/induction) + differential correspondence"),
- "C13": ("Coq theorems: the error counter touches exactly its (error, process, run) key; the pause decision is taken exactly when the count reaches n > 0, never for n = 0. Correspondence: random op sequences against internal/errorcounter.",
-         "Engine-level part (pause write in the n-th failing operation, retry interval) is carried by the engine model as it is built. Trusted: Coq kernel, extraction, harness; counter key modelled as a triple.",
-         "Coq proof + differential correspondence"),
+ "C01": ("Theorems (props/C01.v): no committed write is stranded with respect to the step consumer / timeout inserter of its status (outbox, or ahead of the committed position, or another shard's, or handled to completion with the witness the nil return leaves), proved for all histories from the delivery invariant (a consumer's position never passes an unhandled event; no hypothesis on the history) and the publish invariant; exactly-once effect (functions act on the persisted version only; each write moves the version by one). " + ENGINE_Q + "Correspondence: the real engine under the deterministic simulation harness at every single fault position x fault kind and random multi-fault runs, compared with the extracted model; the monitor checks on the implementation's observations that at quiescence every run's final record equals the failure-free execution.",
+         "PARTIAL: the 'final status and object equal the failure-free execution' clause is decided by the monitor on generated histories, not by one theorem; its ingredients (not stranded, effect on persisted version, one version per write) are theorems. " + TRUST,
+         "Coq proof (inductive delivery + publish invariants over all operation sequences and fault plans) + differential correspondence with the real engine + at-quiescence monitor"),
+ "C02": ("Theorems: for every builder call list (any order) the graph's transitions are exactly the declared edges, validateTransition accepts exactly those for all integers; for all histories every committed write keeps the status or follows a declared transition from the persisted status, and a new run starts at a declared status. " + ENGINE_Q + "Correspondence: real Builder/graph/validateTransition on random call lists and all permutations of small sets; engine histories with functions returning declared, undeclared, 0, -1 and error-with-status outcomes.",
+         TRUST, "Coq proof (graph invariant over AddTransition sequences; token theorem over all histories) + differential correspondence + monitor"),
+ "C03": ("Theorems: the controller accepts exactly the documented (state, op) pairs (finite case analysis incl. out-of-range), rejected => nothing stored; IsTerminal = declared destination without outgoing edge, invariant under builder order; for all histories stored run states follow the lifecycle relation, finished stays finished, Completed exactly with the move to a terminal status. " + ENGINE_Q + "Correspondence: exhaustive table through NewRunStateController and the web UI handler; engine histories with control operations at every position.",
+         TRUST, "Coq proof (finite case analysis, graph invariant, token theorem) + exhaustive / differential correspondence + monitor"),
+ "C04": ("Theorems: for EVERY state (stale-read fault on the lookup included) a step/inserter handler that reads a higher version invokes nothing, writes nothing and returns nil; a lower version => nothing invoked or written, error (retry); for all histories functions act on the persisted version only and every write is version+1. Correspondence: rewinds to every position, duplicated deliveries, stale replica answers, on the real engine.",
+         "A stale read that makes an old event look current is outside the statement (undetectable without conditional writes). " + TRUST,
+         "Coq proof (handler facts for every state + token theorem) + differential correspondence + monitor"),
+ "C05": ("Theorems (world invariant, all histories): a Store appends exactly one write and one outbox entry routing it; every committed write is in the outbox or published; every log event and outbox entry stems from a committed write. " + ENGINE_Q + "Correspondence + monitor: per relay cycle an entry is deleted only after its successful send and close, at every fault position of the cycle, on the real purgeOutbox.",
+         "The liveness count (ceil(n/limit) fault-free cycles drain the outbox) is monitored, not a theorem. " + TRUST,
+         "Coq proof (publish invariant by induction over operations) + differential correspondence + monitor"),
+ "C06": ("Theorems: routing is a total function of the record for all integer run-state codes; topic strings of one workflow are pairwise distinct for every name (itoa injective); Await release condition (repaired F9; the original refuted with a witness); for all histories the event a consumer receives is of its own topic and announces a committed write routed to that topic. Correspondence: exhaustive grid through the real protobuf outbox entry and topic.go; await family.",
+         "DecimalString models strconv.FormatInt (swept by the harness). " + TRUST,
+         "Coq proof + exhaustive grid correspondence + engine correspondence"),
+ "C07": ("Theorems: for EVERY state a failing handler leaves no ack, an ack follows a nil handler or a filter, errors take the error exit (close, back-off), only Ack moves a committed position; for all histories with NO hypothesis the committed position never passes an event that was neither filtered nor handled to completion, and Recv returns the first event of the topic at or after the position (=> an unacknowledged event is handled again). Correspondence: every consumer kind x every failure position on the real consume loop.",
+         "PARTIAL: the lag-timing clause and the connector event round trip are decided by the monitor / correspondence only. " + TRUST,
+         "Coq proof (handler facts for every state + delivery invariant over all histories) + differential correspondence + monitor"),
+ "C08": ("Theorems (all histories): no step/callback/timeout function is invoked while the run's persisted state is Paused/Cancelled/RequestedDataDeleted/DataDeleted; a stopped run keeps status and object (but for the deletion rewrite). " + ENGINE_Q + "Correspondence: control operations (API, controller, from step functions, by error count) at every position of generated histories.",
+         TRUST, "Coq proof (token theorem over all histories) + differential correspondence + monitor"),
+ "C09": ("Theorems: a new run is Initiated, version 1, at a declared status; world invariant for all histories: every run followed by a later run of its foreign ID is finished (at most one unfinished). Composition with C17 (memrecordstore refines the reference store, Latest = newest created). " + ENGINE_Q,
+         TRUST, "Coq proof (world invariant by induction over operations) + differential correspondence + monitor"),
+ "C10": ("Theorems over the shard filter: for every integer event ID and every shard count n >= 2 exactly one shard handles the event; the original truncated remainder refuted (F7, repaired). Correspondence: real shardFilter on all residues and both signs; the launch family compares the roles the real Run requests with the model's enumeration on the whole configuration grid (per-unit/default counts 0..8 x hooks x timeouts x connectors x paused-retry, two display-string variants).",
+         "PARTIAL: the launch enumeration / role-name part is an exhaustive comparison on the grid, not a theorem. int64 modelled as Z. " + TRUST,
+         "Coq proof (shard partition for all Z) + exhaustive / differential correspondence"),
+ "C11": ("Theorems: for EVERY state a store/stream/timeout call made after lease loss or crash has no effect; a failed operation takes the error exit and the process survives; memrolescheduler transition system: at most one live holder per role for every interleaving of await/grant/cancel/unlock. Monitor on the real engine: every call under the current lease, Await after errors, open/close balance, no call after Stop.",
+         "PARTIAL: freedom from data races is a statement about Go's memory model; it is not modelled and nothing is claimed for it. " + TRUST,
+         "Coq proof (handler facts + transition-system mutex invariant) + differential correspondence + monitor"),
+ "C12": ("Theorems: for all histories a timeout function runs only for a run persisted at that status, not stopped, not finished; memtimeoutstore refines the reference timeout store for every operation sequence (unknown IDs included); due <=> same workflow/status, not completed, expired; other timers untouched. Monitor: fired only with an own due timer listed in this cycle, cancelled when the run moved, completed after the transition.",
+         TRUST, "Coq proof (token theorem + refinement by simulation) + differential correspondence + monitor"),
+ "C13": ("Theorems: the error counter touches exactly its (error, process, run) key; for EVERY state maybePause never pauses without a count, below the count writes nothing, at the count pauses through the controller and clears. Monitor on the real engine: paused exactly at the n-th failure of that key since the last pause; auto-retry only after the interval.",
+         "The history-level count is decided by the monitor; per-operation arithmetic is proved. Counter key modelled as a triple. " + TRUST,
+         "Coq proof + differential correspondence + monitor"),
+ "C14": ("Theorems: for all histories every write making a run Paused/Cancelled/Completed is, for the hook consumer of that state, in the outbox, or at/after its committed position, or the hook returned nil for that run, or the run's data was deleted; a failing hook is never acknowledged; an event of another state is acknowledged without invoking the hook (every state). " + ENGINE_Q,
+         TRUST, "Coq proof (delivery + publish invariants over all histories; handler facts) + differential correspondence + at-quiescence monitor"),
+ "C15": ("Theorems (all histories): a deletion request is accepted only for Completed/Cancelled/DataDeleted runs; the scrub keeps status and identity and bumps the version; an accepted request is in the outbox, or at/after the delete consumer's position, or the run is DataDeleted (never lost). " + ENGINE_Q,
+         TRUST, "Coq proof (token theorem + delivery invariant) + differential correspondence + at-quiescence monitor"),
+ "C16": ("Theorems (all histories): identity fields constant, versions consecutive, update time monotone, StatusDescription of the written status; the object changes only with a status write or the scrub; every function sees the persisted object. " + ENGINE_Q,
+         TRUST, "Coq proof (token theorem over all histories) + differential correspondence + monitor"),
+ "C17": ("Theorems: memrecordstore refines the reference store for every operation sequence including caller mutations (simulation relation); paging theorem for all contents, filters, orders and page sizes. Correspondence: the real adapter on exhaustive short and random long sequences.",
+         TRUST, "Coq proof (refinement by simulation, induction over op sequences) + differential correspondence"),
+ "C18": ("Theorems: sqlstore.Store as a statement sequence over a transactional row store: for every failure position the committed database is unchanged and an error is returned; without failure exactly the record row and one outbox row are committed; the committed db abstracts to the reference store step; placeholders = arguments. Correspondence: the real sqlstore/sqltimeout on sqlmini (recording database/sql driver + in-process engine) with a failure at every statement; statement-log check; cross-check of the extracted model against the committed rows.",
+         "PARTIAL: MySQL itself (isolation, datetime ties, collation) is replaced by sqlmini, as the property allows ('a reference SQL engine'). " + TRUST,
+         "Coq proof (statement-level atomicity for all failure positions + refinement) + differential correspondence"),
+ "C19": ("Theorems: memstreamer refines the reference stream (log + position per name) for every interleaving of send/new receiver/recv/ack/reconnect; delivery from the position, in send order, redelivery until ack. Domain: one topic per receiver name. Correspondence: exhaustive short and random sequences on the real adapter.",
+         TRUST, "Coq proof (refinement by simulation) + differential correspondence"),
+ "C20": ("Theorems: one run per tick, nothing created when the filter answers false or the latest run is unfinished, cron laws of the periodic family, never-early for the iteration's reference instant; the full 'never before the first tick after the later of start and latest creation' is REFUTED by a vm_compute witness (F13, catch-up after downtime; recorded as a known finding) and the exact restriction is proved as _partial. Correspondence: schedule clock walks on the real Schedule with the simulated clock; next compared with robfig/cron.",
+         "Known finding F13 (KNOWN-FINDING line, exit 0); non-periodic cron specifications are outside the model's family. " + TRUST,
+         "Coq proof (+ refutation witness) + differential correspondence + monitor"),
 }
 
 GENERIC = ("Coq theorems over the executable model of the anchored code (coq/props/%s.v) + correspondence of the model with the real code on every run (harness families: %s) + the property monitor evaluated on the implementation's observations.",
@@ -48,7 +85,7 @@ m = {
              {"name": "correspondence", "path": "harness/ + ocaml/", "serves_properties": claimed, "kind_free_text": "Go harness running the real code from /repo's working tree; extracted OCaml model re-computes every observation and evaluates the extracted monitor"}],
  "checks": [chk(p) for p in claimed],
  "not_applicable": [],
- "notes": "All checks: ./check <ID> quick|thorough. See DESIGN.md.",
+ "notes": "All checks: ./check <ID> quick|thorough|--replay FILE. Every property is claimed; partial clauses are stated in level_note and DESIGN.md section 7. Known findings: known_findings.json. Seeded changes and which check catches them: seeded/ and DESIGN.md section 6.",
 }
 for l in open(os.path.join(ROOT, "properties.jsonl")):
     pid = json.loads(l)["id"]
